@@ -39,7 +39,8 @@ func c03ExtUniverse() []TNode {
 		}
 		out = append(out, TNode{Path: "out/u/" + strings.TrimPrefix(n.Path, "src/"), Kind: "file", Body: n.Body})
 	}
-	out = append(out, TNode{Path: "src/ext", Kind: "link", Target: "../out/u"}, TNode{Path: "src/b", Kind: "file", Body: "b"}, TNode{Path: "src/a/b", Kind: "file", Body: "a/b"})
+	out = append(out, TNode{Path: "src/ext", Kind: "link", Target: "../out/u"}, TNode{Path: "src/b", Kind: "file", Body: "b"}, TNode{Path: "src/a/b", Kind: "file", Body: "a/b"},
+		TNode{Path: "src/zfile", Kind: "file", Body: "zfile"}, TNode{Path: "src/zdir/f", Kind: "file", Body: "zdir/f"}) // siblings sorting after the link
 	return out
 }
 
@@ -96,6 +97,7 @@ func RunC03(tier string) int {
 		rules    []string
 		universe int
 		cons     c03Consumer
+		noNL     bool
 	}
 	var setStats []map[string]any
 	runJobs := func(name string, jobs []job) {
@@ -114,13 +116,16 @@ func RunC03(tier string) int {
 				nodes = c03Universe(j.universe)
 			}
 			text := strings.Join(j.rules, "\n") + "\n"
+			if j.noNL {
+				text = strings.Join(j.rules, "\n") // the last line is not newline-terminated
+			}
 			nodes = append(nodes, TNode{Path: "src/.terraformignore", Kind: "file", Body: text})
 			args[i] = PackArg{Nodes: nodes, Ignore: j.cons.Ignore, Deref: j.cons.Deref, Legacy: j.cons.Legacy, NoTrees: true}
 			return args[i]
 		}, func(i int, r core.Result) {
 			j := jobs[i]
 			rep.Evaluations++
-			desc := fmt.Sprintf("consumer=%s universe=%d rules=%q", j.cons.Name, j.universe, j.rules)
+			desc := fmt.Sprintf("consumer=%s universe=%d rules=%q final-newline=%v", j.cons.Name, j.universe, j.rules, !j.noNL)
 			if r.Hung || r.Crashed {
 				rep.Violation("slug.Pack/hang-or-crash", desc+" "+firstLines(r.Stderr, 3), "pack", args[i])
 				return
@@ -217,7 +222,7 @@ func RunC03(tier string) int {
 					us = []int{1}
 				}
 				for _, u := range us {
-					js = append(js, job{rf, u, c})
+					js = append(js, job{rf, u, c, false})
 				}
 			}
 		}
@@ -231,6 +236,23 @@ func RunC03(tier string) int {
 		one = append(one, []string{r})
 	}
 	runJobs("1-rule files (full alphabet)", mk(one, []int{1, 2}, consumers))
+	{
+		// the same rule files without a final newline, and 2-rule files over a small core
+		var js []job
+		for _, j := range mk(one, []int{1}, consumers[:2]) {
+			j.noNL = true
+			js = append(js, j)
+		}
+		for _, r1 := range []string{"a/", "b", "!a/b", "*"} {
+			for _, r2 := range []string{"a/", "b", "!a/b", "!b", "ab/"} {
+				for _, j := range mk([][]string{{r1, r2}}, []int{1}, consumers[:2]) {
+					j.noNL = true
+					js = append(js, j)
+				}
+			}
+		}
+		runJobs("rule files whose last line has no newline", js)
+	}
 	var two [][]string
 	src2 := coreRules
 	if thorough {
